@@ -1,4 +1,6 @@
 import RtenVerif.Lemmas.PartialRunTotal
+import RtenVerif.Lemmas.PartialRunOwned
+import RtenVerif.Lemmas.PartialRunDeep
 import RtenVerif.Generated.NondetOps
 
 /-!
@@ -47,6 +49,25 @@ theorem c04_no_nondeterministic_evaluated {g : Graph} {ins outs kept leaves : Li
     subst h1
     intro k hk
     exact (kept_spec g plan ins k hk).2
+
+/-- **C04.T3 at every nesting depth** `If`/`Loop` own subgraphs; the IR's `deterministic` flag
+of an operator is the *deep* flag `DTree.deep` of its tree of own flags (hypothesis `DeepFlags`,
+which is what the code's recursive `is_deterministic` computes after commit "fix: If and Loop are
+deterministic only if every operator in their subgraphs is", and what the harness ties: the
+driver computes the flag from the own flags with `DTree.deep`).  Then for every operator
+`partial_run` executes, neither it nor any operator at any nesting depth inside its subgraphs
+(`(tree k).nodes`) is flagged non-deterministic.  Before that commit the statement was false
+of the code: `If(true){RandomUniform}` was evaluated and folded (finding C04-if-random). -/
+theorem c04_no_nondeterministic_evaluated_deep {g : Graph} {tree : Nat → DTree}
+    (hf : DeepFlags g tree) {ins outs kept leaves : List Nat}
+    (h : partialPlan g ins outs = .ok (kept, leaves)) :
+    ∀ k ∈ kept, ∀ t' ∈ (tree k).nodes, t'.own = true := by
+  obtain ⟨plan, _, rfl, _⟩ := partialPlan_ok h
+  exact kept_deep hf plan ins
+
+/-- The deep flag is exactly "no operator at any depth is flagged non-deterministic". -/
+theorem c04_deep_flag_iff (t : DTree) : t.deep = true ↔ ∀ t' ∈ t.nodes, t'.own = true :=
+  deep_iff t
 
 /-- Non-vacuity: `RandomUniform`-like operator 3 (no inputs, non-deterministic) feeds the
 deterministic operator 4 together with the supplied value 0; both are pruned, nothing is kept
@@ -235,6 +256,21 @@ theorem c04_compose_values {g : Graph} {sem : Sem Ω V} {cv : Nat → V} {S rest
     (hfin : run g sem ω cv (leaves ++ rest) [] outs = .ok valsP) : valsF = valsP :=
   compose_values hs hdet hp hfull hfin
 
+/-- **Owned inputs** `run_plan` moves inputs passed as owned `Value`s into `temp_values` and
+reads borrowed ones through `inputs_by_id`.  `Graph::run` with any owned/borrowed split of its
+inputs returns exactly what the all-borrowed call returns (same outcome class, same values) —
+unconditionally.  Hence T1/T2, stated above for borrowed inputs, hold for every split. -/
+theorem c04_run_owned_eq {g : Graph} {sem : Sem Ω V} {cv : Nat → V} {ω : Ω}
+    (views owned : List (Nat × V)) (outs : List Nat) :
+    run g sem ω cv views owned outs = run g sem ω cv (views ++ owned) [] outs :=
+  run_owned_eq outs
+
+/-- The same for `Graph::partial_run`. -/
+theorem c04_partial_run_owned_eq {g : Graph} {sem : Sem Ω V} {cv : Nat → V} {ω : Ω}
+    (views owned : List (Nat × V)) (outs : List Nat) :
+    partialRun g sem ω cv views owned outs = partialRun g sem ω cv (views ++ owned) [] outs :=
+  partialRun_owned_eq outs
+
 /-- **Completeness of `run`** (used for T2, of independent interest): on a well-formed request
 for which the naive evaluation assigns a value to every requested output, `run` succeeds — no
 planning error, no panic, no operator error. -/
@@ -262,6 +298,36 @@ example : (run chainGraph numSem () (fun _ => 100) ([(3, 110)] ++ [(1, 7)]) [] [
     some [123] := by decide
 example : evalFull chainGraph numSem () (fun _ => 100) ([(0, 5)] ++ [(1, 7)]) 4 = some 123 := by
   decide
+
+/-- Non-vacuity of the "any oracle" clause: operator 3 is a random generator (returns the
+oracle), operator 4 is deterministic, operator 6 needs both.  `partial_run` with oracle 5
+returns value 2 = 10 + 4; the full evaluation with a *different* oracle 9 assigns the same value
+to id 2, while the random value 1 and the output 5 do depend on the oracle. -/
+def oracleGraph : Graph :=
+  { nodes := [.value, .value, .value,
+      .operator { inputs := [], outputs := [some 1], deterministic := false },
+      .operator { inputs := [some 0], outputs := [some 2] },
+      .value,
+      .operator { inputs := [some 1, some 2], outputs := [some 5] }] }
+
+def oracleSem : Sem Nat Nat := fun ω p args => if p = 3 then some [ω] else some [args.sum + p]
+
+example : DetSem oracleGraph oracleSem := by
+  intro p op hop hdet ω ω' args
+  by_cases h : p = 3
+  · subst h
+    have : getOp oracleGraph 3 =
+        some { inputs := [], outputs := [some 1], deterministic := false } := by decide
+    rw [this] at hop
+    injection hop with hop
+    subst hop
+    cases hdet
+  · simp [oracleSem, h]
+example : (partialRun oracleGraph oracleSem 5 (fun _ => 0) [(0, 10)] [] [5]).toOption =
+    some [(2, 14)] := by decide
+example : evalFull oracleGraph oracleSem 9 (fun _ => 0) [(0, 10)] 2 = some 14 := by decide
+example : evalFull oracleGraph oracleSem 9 (fun _ => 0) [(0, 10)] 5 = some 29 := by decide
+example : evalFull oracleGraph oracleSem 5 (fun _ => 0) [(0, 10)] 5 = some 25 := by decide
 
 /-! ## The returned ids are distinct (after the fix); before it they could repeat
 
@@ -306,12 +372,17 @@ theorem c04_fixed_dupGraph : partialPlan dupGraph [0, 1] [1, 2] = .ok ([3], [1, 
 `translate/nondeterministic_ops.py` on every check. -/
 
 open RtenVerif.Generated.NondetOps in
-/-- Every registered operator whose name starts with `Random`, and `Multinomial`, overrides
-`is_deterministic` with the literal body `false`; the trait default is literally `true`
-(so every operator that does not override it is treated as deterministic). -/
+/-- The trait default of `is_deterministic` is literally `true`; every registered operator whose
+name starts with `Random`, and `Multinomial`, overrides it with the literal body `false`; every
+operator implemented in a source file that mentions a random number generator overrides it
+(whatever its name); every operator that owns subgraphs (`If`, `Loop`) overrides it (with the
+recursion into its subgraphs that `DTree.deep` models and the harness ties). -/
 theorem c04_random_ops_nondeterministic :
     traitDefault = true ∧ randomRegistered.length = 5 ∧
-    (∀ n ∈ randomRegistered, (overrides.any (fun o => o.1 == n && o.2.2.2.1)) = true) := by
+    (∀ n ∈ randomRegistered, (overrides.any (fun o => o.1 == n && o.2.2.2.1)) = true) ∧
+    (∀ n ∈ rngFileOps, (overrides.any (fun o => o.1 == n)) = true) ∧
+    subgraphOps.length = 2 ∧
+    (∀ n ∈ subgraphOps, (overrides.any (fun o => o.1 == n)) = true) := by
   decide
 
 end RtenVerif.PartialRun
